@@ -64,6 +64,9 @@ fn lists() -> Vec<(&'static str, Vec<Vec<(Combo, f32)>>)> {
         ("L3", vec![r(&[("7s7h", 1.0), ("7s2s", 0.5), ("As7d", 0.5)]), r(&[("AhAd", 1.0), ("2h2d", 0.5), ("7c2c", 1.0), ("AsKs", 0.125)])]),
         // a full table: ten one-combo players (seats 8 and 9 exist), suit-asymmetric, sharing kickers so that ties occur
         ("L5", ["KsQs", "KhJh", "KdTd", "Kc9c", "QhJs", "QdTs", "Qc9h", "JdTh", "Jc9d", "Tc9s"].iter().map(|t| r(&[(*t, 1.0)])).collect()),
+        // a full table whose LATE seats hold overlapping two-combo ranges (player-vs-player blocking among seats 7-9,
+        // wherever the rotation puts them)
+        ("L6", vec![r(&[("KsQs", 1.0)]), r(&[("KhJh", 1.0)]), r(&[("KdTd", 1.0)]), r(&[("Kc9c", 1.0)]), r(&[("QhJs", 1.0)]), r(&[("QdTs", 1.0)]), r(&[("Qc9h", 1.0)]), r(&[("JdTh", 1.0), ("Jc9d", 0.5)]), r(&[("Jc9d", 1.0), ("Tc9s", 0.5)]), r(&[("Tc9s", 1.0), ("JdTh", 0.25)])]),
     ]
 }
 
@@ -105,6 +108,10 @@ pub fn run(tier: &str) -> i32 {
         for b in (a + 1)..pool.len() {
             for d in (b + 1)..pool.len() {
                 for li in 0..ls.len() {
+                    // the second ten-player list costs eight times the first: a sixth of the flops in quick
+                    if ls[li].0 == "L6" && !thorough && (a + b + d) % 6 != 0 {
+                        continue;
+                    }
                     jobs.push(([pool[a], pool[b], pool[d]], li, true));
                 }
             }
@@ -199,14 +206,14 @@ pub fn run(tier: &str) -> i32 {
     rep.machine(showdowns.max(1), runs, runs);
     rep.sub(
         "relabel-reorder",
-        if thorough { "all 220 flops over ranks A,7,2 x 5 suit-asymmetric overlapping range lists (2, 3, 3, 2 and 10 players) x 24 suit permutations x all player orders (10 players: rotations, reversal, adjacent transpositions); plus all 22,100 flops x 2 lists x 24 permutations x {identity, reversed} order. distinct_nontrivial = base configurations with both outright wins and ties" } else { "all 220 flops over the 12 cards of ranks A,7,2 x 5 suit-asymmetric overlapping range lists (2, 3, 3, 2 and 10 players) x 24 suit permutations x all n! player orders (10 players: all rotations, the reversal and all adjacent transpositions). distinct_nontrivial = base configurations with both outright wins and ties" },
+        if thorough { "all 220 flops over ranks A,7,2 x 6 suit-asymmetric overlapping range lists (2, 3, 3, 2, 10 and 10 players; the last one, with overlapping two-combo ranges in three seats, on a sixth of the flops in quick) x 24 suit permutations x all player orders (10 players: rotations, reversal, adjacent transpositions); plus all 22,100 flops x 2 lists x 24 permutations x {identity, reversed} order. distinct_nontrivial = base configurations with both outright wins and ties" } else { "all 220 flops over the 12 cards of ranks A,7,2 x 6 suit-asymmetric overlapping range lists (2, 3, 3, 2, 10 and 10 players; the last one, with overlapping two-combo ranges in three seats, on a sixth of the flops in quick) x 24 suit permutations x all n! player orders (10 players: all rotations, the reversal and all adjacent transpositions). distinct_nontrivial = base configurations with both outright wins and ties" },
         runs,
         nontrivial,
         false,
         json!({"base_configurations": jobs.len(), "evaluator_runs": runs}),
     );
     rep.sample(json!({"flop": "As7h2d", "list": "L2: [AsKs,AhKh:0.5] [KdKc,KsKd] [AdQd,KsQs:0.25]", "perm": "s->h h->d d->c c->s", "order": [2, 0, 1]}));
-    rep.bound("range lists are five fixed small lists (product of sizes <= 12); flops: 220 (quick) / all 22,100 (thorough)");
+    rep.bound("range lists are six fixed small lists (product of sizes <= 12); flops: 220 (quick) / all 22,100 (thorough)");
     rep.assume("weights are dyadic so the f64 sum of probabilities is exact in any order");
     rep.finish()
 }
